@@ -177,6 +177,28 @@ theorem C12_key_sensitivity (f : Keccak.State → Keccak.State)
 theorem C12_kravatte_squeeze_len (f : Keccak.State → Keccak.State) : SqueezeLen (kravatteDeck f) :=
   Kravatte.kravatteDeck_squeezeLen f
 
+/-- so the round trip and the exact-acceptance theorem hold unconditionally for the deck function
+the driver runs (the model of `kravatte.go`), whatever the permutation and from every object state -/
+theorem C12_kravatte_open_seal (f : Keccak.State → Keccak.State) (s : St Kravatte.Kv) (ad p : List UInt8) :
+    openMsg (kravatteDeck f) s ad (sealMsg (kravatteDeck f) s ad p).2 =
+      ((sealMsg (kravatteDeck f) s ad p).1, some p) :=
+  C12_open_seal _ (C12_kravatte_squeeze_len f) s ad p
+
+theorem C12_kravatte_open_iff_seal (f : Keccak.State → Keccak.State) (s : St Kravatte.Kv)
+    (ad ct p : List UInt8) :
+    (openMsg (kravatteDeck f) s ad ct).2 = some p ↔ ct = (sealMsg (kravatteDeck f) s ad p).2 :=
+  C12_open_iff_seal _ (C12_kravatte_squeeze_len f) s ad ct p
+
+/-- `NewSANSE` accepts exactly the keys shorter than 200 bytes -/
+theorem C12_new_sanse (f : Keccak.State → Keccak.State) (key : List UInt8) :
+    (newSanse f key).isSome = decide (key.length < 200) := by
+  unfold newSanse Kravatte.refMaskInit
+  by_cases h : key.length ≥ Kravatte.widthBytes
+  · have : ¬ key.length < 200 := by simp only [Kravatte.widthBytes] at h; omega
+    simp [h, this]
+  · have : key.length < 200 := by simp only [Kravatte.widthBytes] at h; omega
+    simp [h, this]
+
 /-! ### non-vacuity -/
 
 /-- a toy deck function: the state is the list of absorbed bytes, squeezing repeats a digest -/
